@@ -318,7 +318,7 @@ func runC07(ctx *core.Ctx) {
 	if smoke(ctx) && len(B) > 220 {
 		B = B[:220]
 	}
-	if !smoke(ctx) && len(B) > 800 {
+	if ctx.Quick() && !smoke(ctx) && len(B) > 800 {
 		B = B[:800]
 	}
 	binops := []string{"Add", "Subtract", "Multiply", "Equal"}
@@ -329,7 +329,7 @@ func runC07(ctx *core.Ctx) {
 		return scBinCase{op, B[j/nb], B[j%nb]}
 	})
 	T := enc
-	nt := tierN(ctx, 20, 48)
+	nt := sz(ctx, 20, 48, 110)
 	if len(T) > nt {
 		// spread over the alphabet
 		var sel []Hex
